@@ -95,14 +95,19 @@ CHECKS = {
              "status returned is the one whose condition occurred - Converged: the loop guard on t failed; "
              "ConvergenceExceededMaxSteps: the step count passed the limit; StepSizeTooSmall: H absorbed or below round_off; "
              "NaNDetected / InfDetected: an attempt of the run had such an error norm; nothing else is ever returned "
-             "(C06_rosenbrock_status_is_truthful, C06_backward_euler_converged_means_interval_covered). The clause 'Converged only if the whole "
+             "(C06_rosenbrock_status_is_truthful, C06_backward_euler_converged_means_interval_covered); 0 <= final_time_ <= "
+             "time_step for both integrators in every scalar structure that embeds into the ordered rationals - the rationals "
+             "the tie computes with, and binary64 whenever no operation rounds - for every policy set, history and exit "
+             "(C06_rosenbrock_final_time_within_the_interval[_over_Q], C06_backward_euler_final_time_within_the_interval; "
+             "premises: non-negative controls, factor_min and rejection_factor_decrease <= 1, a raw factor <= 1 for an "
+             "error norm >= 1). The clause 'Converged only if the whole "
              "interval was integrated' is REFUTED on the faithful model (C06_converged_without_progress_refuted, witness by "
              "vm_compute) and replayed on the implementation: recorded as known findings. Tie and oracle as C05 with time "
              "steps down to 2^-60 and continuation remainders; the oracle checks counters against the calls the policies "
              "saw, 0 <= final_time <= time_step, Converged => interval covered, final_time = sum of accepted steps. A "
              "backward-Euler overshoot (h_start > time_step) found by the oracle is fixed in the repository (fix: bba10e6).",
-        note="PARTIAL: 0 <= final_time <= time_step, termination and 'the State holds the solution at final_time' are checked by "
-             "the oracles and the tie, not theorems. Known findings in "
+        note="PARTIAL: the time bounds up to rounding in binary64, termination and 'the State holds the solution at final_time' "
+             "are checked by the oracles and the tie, not theorems. Known findings in "
              "KNOWN_FINDINGS.txt (absolute round_off in the loop guard).",
         technique="Coq proof (counter invariants; refutation witness by vm_compute) + scripted-policy tie + oracle",
         ref="6 C06"),
